@@ -1040,7 +1040,43 @@ def return_column_harness(ctx):
     ctx.cover("enumerated")
 
 
+def every_abi_harness(ctx):
+    """"fails cleanly" is said of every ABI: for EACH registered ISA / file format (the PE ones too, which define no return-address
+    column) -- a table without directives on the blocks asked about evaluates to nothing; a directive outside any procedure and a stray
+    .cfi_endproc are CFIStateError; a block without an address is ValueError; nothing else is ever raised by these inputs"""
+    from gtirb_rewriting import abi as ABIM
+    keys = sorted(ABIM._ABIS, key=lambda k: (k[0].name, k[1].name))
+    isa, ff = keys[ctx.choose(len(keys), "abi")]
+    U = NULL_UUID
+    tag = "every-abi"
+    note = "%s/%s" % (isa.name, ff.name)
+
+    def run(table, detach=False):
+        m, block = mk_module(isa, ff)
+        other = gtirb.CodeBlock(offset=4, size=4)
+        other.byte_interval = block.byte_interval
+        _auxdata.cfi_directives.set(m, {gtirb.Offset(other if k == "other" else block, o): v for (k, o), v in table.items()})
+        if detach:
+            block.byte_interval.address = None
+        try:
+            return ("ok", [(off, st is None) for _, off, st in E.evaluate_cfi_directives(m, [block])])
+        except Exception as ex:      # noqa
+            return (type(ex).__name__, str(ex)[:60])
+    ctx.cover("enumerated")
+    r = run({("other", 0): [(".cfi_undefined", [1], U)]})
+    ctx.prove(tag + "/a-table-without-directives-on-these-blocks-evaluates-to-nothing", z3.BoolVal(r == ("ok", [])), note="%s: %s" % (note, r))
+    r = run({})
+    ctx.prove(tag + "/an-empty-table-evaluates-to-nothing", z3.BoolVal(r == ("ok", [])), note="%s: %s" % (note, r))
+    r = run({("b", 0): [(".cfi_undefined", [1], U)]})
+    ctx.prove(tag + "/a-directive-outside-any-procedure-is-a-CFIStateError", z3.BoolVal(r[0] == "CFIStateError"), note="%s: %s" % (note, r))
+    r = run({("b", 0): [(".cfi_endproc", [], U)]})
+    ctx.prove(tag + "/a-stray-endproc-is-a-CFIStateError", z3.BoolVal(r[0] == "CFIStateError"), note="%s: %s" % (note, r))
+    r = run({("b", 0): [(".cfi_undefined", [1], U)]}, detach=True)
+    ctx.prove(tag + "/a-block-without-an-address-is-a-ValueError", z3.BoolVal(r[0] in ("ValueError", "CFIStateError")), note="%s: %s" % (note, r))
+
+
 def jobs(tier="quick", seed=0):
+    yield Job("C15/every-abi", every_abi_harness, kind="E", func="gtirb_rewriting.dwarf.cfi_eval:evaluate_cfi_directives (all registered ABIs)", expect_cover=("enumerated",))
     yield Job("C15/return-column", return_column_harness, kind="E", func="gtirb_rewriting.abi:*.default_dwarf_eh_return_column + dwarf.cfi_eval:evaluate_cfi_directives", expect_cover=("enumerated",))
     yield from _jobs15(tier, seed)
     # the contract of parse_cfi_instructions that the .cfi_escape obligations above ASSUME (modular stub) is discharged here too,
